@@ -260,9 +260,16 @@ class CSSRuleRules(CSSRule):
             rule = tempsheet.cssRules[0]
 
         elif isinstance(rule, cssutils.css.CSSRuleList):
-            # insert all rules
-            for i, r in enumerate(rule):
-                self.insertRule(r, index + i)
+            # insert all rules, or none of them if one is rejected
+            inserted = 0
+            try:
+                for i, r in enumerate(rule):
+                    self.insertRule(r, index + i)
+                    inserted += 1
+            except xml.dom.DOMException:
+                for _ in range(inserted):
+                    self.deleteRule(index)
+                raise
             return True, True
 
         elif not isinstance(rule, cssutils.css.CSSRule):
